@@ -3,6 +3,7 @@
   Property theorems only; helper lemmas live in CC/Threefish/Lemmas.lean.
 -/
 import CC.Threefish.Lemmas
+import CC.Threefish.Src
 namespace CC.Thm.C10
 open CC CC.Threefish CC.Threefish.Model
 
@@ -51,5 +52,41 @@ example : Model.decrypt .unrolled tf1024 ((List.range 128).map fun i => BitVec.o
 example : Model.decrypt .loop tf512 (List.replicate 64 0xff) 1 2
       (Model.encrypt .loop tf512 (List.replicate 64 0xff) 1 2 (List.replicate 64 0xff)) = List.replicate 64 0xff :=
   dec_enc _ _ (by simp) _ _ _ _ (by decide)
+
+/-- **Source tie, phase 3 (the trait impls).**  Regenerated from block-ciphers/threefish/src/lib.rs on every run:
+    `NewBlockCipher::new(key) = Self::with_tweak(key, 0, 0)` for the three `impl_threefish!` instantiations, and the
+    inventory of the trait impls with the functions each defines — `BlockEncrypt` defines only `encrypt_block`,
+    `BlockDecrypt` only `decrypt_block` (tied to `encryptBlock` / `decryptBlock` in both `unroll8!` shapes by
+    `CC.Thm.C09.source_code_match`), so the slice / par-blocks / by-reference paths are the provided methods of the
+    `cipher` crate calling these; an override such as a `decrypt_blocks` with the encrypt body changes the list.
+    `$name { sk }` derives `Clone, Copy`.  Individual facts: `CC.Src.src_threefish*_new`,
+    `CC.Src.src_threefish_trait_impls`, `CC.Src.src_threefish_structs`. -/
+theorem source_glue_match :
+    CC.Gen.Kernels.threefish_errors = [] ∧
+    (∀ key : List (BitVec 8),
+      CC.Gen.Kernels.threefish256_new key = CC.Gen.Kernels.threefish256_with_tweak key 0#64 0#64 ∧
+      CC.Gen.Kernels.threefish512_new key = CC.Gen.Kernels.threefish512_with_tweak key 0#64 0#64 ∧
+      CC.Gen.Kernels.threefish1024_new key = CC.Gen.Kernels.threefish1024_with_tweak key 0#64 0#64) ∧
+    (∀ (key : List (BitVec 8)),
+      withTweak tf256 key 0 0 = CC.Gen.Kernels.threefish256_new key ∧
+      withTweak tf512 key 0 0 = CC.Gen.Kernels.threefish512_new key ∧
+      withTweak tf1024 key 0 0 = CC.Gen.Kernels.threefish1024_new key) ∧
+    CC.Gen.Kernels.threefish_trait_impls =
+      [("Threefish256", "NewBlockCipher", ["new"]), ("Threefish256", "BlockCipher", []),
+       ("Threefish256", "BlockEncrypt", ["encrypt_block"]), ("Threefish256", "BlockDecrypt", ["decrypt_block"]),
+       ("Threefish512", "NewBlockCipher", ["new"]), ("Threefish512", "BlockCipher", []),
+       ("Threefish512", "BlockEncrypt", ["encrypt_block"]), ("Threefish512", "BlockDecrypt", ["decrypt_block"]),
+       ("Threefish1024", "NewBlockCipher", ["new"]), ("Threefish1024", "BlockCipher", []),
+       ("Threefish1024", "BlockEncrypt", ["encrypt_block"]), ("Threefish1024", "BlockDecrypt", ["decrypt_block"])] ∧
+    CC.Gen.Kernels.threefish_structs =
+      [("Threefish256", "struct", ["sk"], ["Clone", "Copy"], []),
+       ("Threefish512", "struct", ["sk"], ["Clone", "Copy"], []),
+       ("Threefish1024", "struct", ["sk"], ["Clone", "Copy"], [])] :=
+  ⟨CC.Src.src_threefish_clean,
+   fun key => ⟨CC.Src.src_threefish256_new key, CC.Src.src_threefish512_new key, CC.Src.src_threefish1024_new key⟩,
+   fun key => ⟨(CC.Src.src_threefish256_with_tweak key 0 0).trans (CC.Src.src_threefish256_new key).symm,
+               (CC.Src.src_threefish512_with_tweak key 0 0).trans (CC.Src.src_threefish512_new key).symm,
+               (CC.Src.src_threefish1024_with_tweak key 0 0).trans (CC.Src.src_threefish1024_new key).symm⟩,
+   CC.Src.src_threefish_trait_impls, CC.Src.src_threefish_structs⟩
 
 end CC.Thm.C10
